@@ -104,3 +104,19 @@ claim("C05",
            "by the mapping it returns; Python set order in make_ids_unique for shared ARG0s is outside the model ('unmodelled').",
       technique="Lean 4 proof over executable model + differential correspondence with the Python implementation",
       design_ref="DESIGN.md §5 C05")
+
+claim("C12",
+      text="Proved in Lean 4 (26 theorems) for all profiles, schemas, filter outcomes and flag combinations of the model of "
+           "commands.mkprof: a profile made from a source profile holds, per copied relation, exactly the selected rows in order, "
+           "with cells unchanged up to the field default and by-name remapping under a different schema; uncopied relations are "
+           "empty; the skeleton/full file-presence rules hold; in-place refresh preserves rows; text input gives one item per line "
+           "with the '*' mark handled; a well-formed source never fails. The filter clause is proved exactly under 'no identical "
+           "rows adjacent among the satisfying rows'; that hypothesis is shown necessary with decide-checked counter-examples "
+           "(F20, known finding: _tsql_distinct merges adjacent identical rows).",
+      note="Only compared, not proved: the tie between the model and commands.mkprof (2.7k generated cases per quick run, 30k "
+           "thorough); i-id and i-length values and the rejections for delimited text. Assumed: TSQL evaluation is a model "
+           "parameter (per-row counts of satisfying joined tuples from the harness's nested-loop evaluator); files are row lists "
+           "with logical mtimes, gzip is the identity, escaping left to C08/C09; schemas key-consistent with plain identifiers; "
+           "no date literals in filters; source and destination directories distinct.",
+      technique="Lean 4 proof over executable model + differential correspondence with the Python implementation",
+      design_ref="DESIGN.md §5 C12")
